@@ -510,6 +510,65 @@ Example C02_site_sound_nonvacuous :
   = [15; 1005; 301; 404; 404].
 Proof. vm_compute. reflexivity. Qed.
 
+(* ---- sequences on one running site ------------------------------------------------------- *)
+(* Requests interleaved with ANY changes of the files below the root (a hidden file or directory
+   replaced by a new inode is one of them): every answer of every history is [handle] evaluated on
+   the file system as it is when the request arrives — hide list included: IsHidden compares with
+   the files the hide-list entries name NOW — and has every guarantee of C02_site_sound with
+   respect to that file system.  (Seeded change C02-m9 remembered the FileInfo of the hide-list
+   entries: after the Casketfile had been replaced it was served.) *)
+Theorem C02_hidden_check_uses_current_files :
+  forall (s : site) (h : list event) (fs : fsys) (r : request) (o : outcome),
+  In (fs, r, o) (run_history s h) ->
+  o = handle (with_fs s fs) r /\
+  match o with
+  | Serve n enc =>
+      is_get_head (q_meth r) = true /\ In n fs /\
+      served_from (s_pages s) (q_path r) (q_ae r) enc (n_path n) /\
+      n_dir n = false /\ is_hidden fs (s_hide s) n = false
+  | Listing kids =>
+      forall k, In k kids -> In k fs /\ is_child (jail (q_path r)) (n_path k) = true /\
+                             is_hidden fs (s_hide s) k = false
+  | Archive ms =>
+      forall k, In k ms -> In k fs /\ is_desc (jail (q_path r)) (n_path k) = true /\
+                           has_prefix (n_path k) (jail (q_path r)) = true /\
+                           is_hidden fs (s_hide s) k = false
+  | Redirect code loc =>
+      rooted (s_prefix s) -> rooted (q_path r) -> one_slash loc = true /\ same_origin loc = true
+  | Status _ => True
+  end.
+Proof. exact history_current_files. Qed.
+Print Assumptions C02_hidden_check_uses_current_files.
+
+(* what was asked and what was on disk earlier is irrelevant: after ANY two histories that leave
+   the same files on disk, the next request gets the same answer *)
+Theorem C02_history_irrelevant :
+  forall (s : site) (h1 h2 : list event) (fs : fsys) (r : request),
+  run_history s (h1 ++ [EDisk fs; EReq r]) = run_history s h1 ++ [(fs, r, handle (with_fs s fs) r)] /\
+  run_history s (h2 ++ [EDisk fs; EReq r]) = run_history s h2 ++ [(fs, r, handle (with_fs s fs) r)].
+Proof. exact history_irrelevant. Qed.
+Print Assumptions C02_history_irrelevant.
+
+(* the Casketfile (identity 11 in the fixture) replaced by a new inode (identity 999) between two
+   requests, then the hidden directory: still 404, not listed, not archived; a visible file
+   replaced is served with its new identity *)
+Example C02_hidden_check_uses_current_files_nonvacuous :
+  let s := mksite (bs "/srv/www") (bs "/srv/www/Casketfile") [SLASH] [SLASH] gen_archive_types in
+  let fs1 := reinode fixture_fs (bs "/Casketfile") 999 in
+  let fs2 := reinode fs1 (bs "/hdir") 998 in
+  let fs3 := reinode fs2 (bs "/a.txt") 997 in
+  map (fun x => match snd x with
+                | Serve n _ => n_id n
+                | Listing k => if existsb (fun n => (n_id n =? 999) || (n_id n =? 998)) k then 1 else 1000
+                | Archive k => if existsb (fun n => (n_id n =? 999) || (n_id n =? 998)) k then 2 else 2000
+                | Redirect c _ => c | Status c => c end)
+      (run_history s [EReq (mkreq 0 (bs "/a.txt") [] [] []); EReq (mkreq 0 (bs "/Casketfile") [] [] []);
+                      EDisk fs1; EReq (mkreq 0 (bs "/Casketfile") [] [] []); EReq (mkreq 0 (bs "/") [] [] []);
+                      EDisk fs2; EReq (mkreq 0 (bs "/") [] (bs "zip") []); EReq (mkreq 0 (bs "/hdir/in.txt") [] [] []);
+                      EDisk fs3; EReq (mkreq 0 (bs "/a.txt") [] [] [])])
+  = [14; 404; 404; 1000; 2000; 404; 997].
+Proof. vm_compute. reflexivity. Qed.
+
 (* ---- the executable spec the case files evaluate ----------------------------------------- *)
 (* [spec_ok] (hide list opened once, hidden directories and permitted names collected once per
    case) is extensionally the reference statement [spec_ok_ref]: nothing was weakened for speed. *)
